@@ -53,7 +53,58 @@ class Ctx:
 
             self._rg = Super(self.prog, root, max_depth=8, inline=inline)
             self.prune_known_switches(self._rg)
+            self._rg.set_correlation(self._corr_keyfn(self._rg))
         return self._rg
+
+    def _corr_keyfn(self, G):
+        """two switches on a bool value with the same in-context provenance (a value produced
+        once per pass, e.g. the chain's notify flag) always take the same branch within a pass"""
+        from mirq.interp import Interp
+        from mirq.prov import subterms as _st
+        I = Interp(self.prog)
+
+        def keyfn(k):
+            n = G.nodes[k]
+            t = n.body.blocks[n.bb]["term"]
+            d = t["discr"]
+            if d["k"] not in ("copy", "move") or d["place"]["p"]:
+                return None
+            if n.body.local_ty(d["place"]["l"]) != "bool":
+                return None
+            bp = self.prog.bp(n.body)
+            raw = bp.operand_term(d, n.bb, "term")
+            # values produced inside a loop of their function are re-computed: not correlated
+            for st in _st(raw):
+                if st[0] == "call":
+                    sb = self.prog.by_path.get(st[1][0])
+                    if sb is not None and self.prog.cfg(sb).in_cycle(st[1][1]):
+                        if not (sb.path == G.root.path):
+                            return None
+                if st[0] in ("undef", "opaque"):
+                    return None
+            if raw[0] == "phi" and all(x[0] == "const" for x in raw[1]):
+                # a flag local: identity = (context, body, local)
+                return ("flag", k[0], n.body.path, self._flag_source(n.body, bp, n.bb, d))
+            return ("val", k[0], n.body.path, raw)
+
+        return keyfn
+
+    def _flag_source(self, body, bp, bb, op):
+        l = op["place"]["l"]
+        for _ in range(6):
+            defs = bp.reaching(l, bb, "term")
+            if len(defs) != 1:
+                return l
+            dd = next(iter(defs))
+            if dd == ("entry",):
+                return l
+            kind, place, x = bp.def_rvalue(dd)
+            if kind == "assign" and x["k"] == "use" and x["op"]["k"] in ("copy", "move") and not x["op"]["place"]["p"]:
+                l = x["op"]["place"]["l"]
+                bb = dd[0]
+                continue
+            return l
+        return l
 
     def prune_known_switches(self, G):
         """a switch on discriminant(x) where x is, in its inlining context, a known aggregate
